@@ -1,5 +1,7 @@
 """C30 — batches conform to the declared schema: join output nullability."""
 from jt import *
+from traces import *
+import re
 
 TECHNIQUE = 'finite-domain constant propagation over MIR (A1) + reference join model; logical/physical sibling tables; CFG extraction of unguarded match arms + per-variant evaluation for the strict-null agreement'
 EXPLANATION = ('Physical output_join_field(jt,is_left): exhaustive (10 x 2) table of the named local force_nullable; '
@@ -78,32 +80,42 @@ NULLABLE = '<datafusion_expr::expr::Expr as datafusion_expr::expr_schema::ExprSc
 PB = 'datafusion_expr::predicate_bounds::'
 
 
-def strict_variants(facts, rec, handler_pred, adt):
-    """variants of `adt` whose match arm in `rec` reaches a call accepted by handler_pred through gotos only (an unguarded arm): CFG rule"""
-    # locals assigned from a discriminant read
-    discr_locals = set()
-    for b in rec['bb']:
-        for st in b['s']:
-            if st[0] == '=' and st[2][0] == 'discr' and not st[1][1]:
-                discr_locals.add(st[1][0])
-    out = {}
-    for b in rec['bb']:
-        t = b['t']
-        if t[0] != 'switch' or t[1][0] not in ('c', 'm') or t[1][1][1] or t[1][1][0] not in discr_locals:
+def strict_variants(facts, decider, handlers, adt, pb_prefix):
+    """variants of `adt` for which the decider ALWAYS answers with the any-child-null handler (beyond the exits it takes for every kind of
+    expression): explored per variant with the module's private helpers followed, so the table may live in a match, in guards or in a predicate helper"""
+    rec = facts.fn(decider)
+    names = variant_names(facts, adt)
+    hshort = set(h.rsplit('::', 1)[-1] for h in handlers)
+
+    def inl(nm):
+        return nm.startswith(pb_prefix) and nm not in handlers and nm != decider and '{closure' not in nm
+    per = {}
+    for vi, v in enumerate(names):
+        selfargs = []
+        for k in range(rec['argc']):
+            ty = rec['locals'][k + 1][0]
+            if ty.lstrip('&') == adt:
+                selfargs.append(R(A(adt, vi, v, ())) if ty.startswith('&') else A(adt, vi, v, ()))
+            else:
+                selfargs.append(R(sym(rec['locals'][k + 1][1] or 'a%d' % k)) if ty.startswith('&') else sym(rec['locals'][k + 1][1] or 'a%d' % k))
+        try:
+            outs = run_traces(facts, rec, selfargs, inline_depth=0, inline_only=None, inline_pred=inl, time_budget=20, budget=400000, loop_visits=1)
+        except Undecidable:
+            per[v] = None
             continue
-        for val, tg in t[2]:
-            cur, hops = tg, 0
-            while hops < 8:
-                tt = rec['bb'][cur]['t']
-                if tt[0] == 'goto':
-                    cur, hops = tt[1], hops + 1
-                    continue
-                if tt[0] == 'call' and isinstance(tt[1], dict) and handler_pred(tt[1].get('res') or tt[1].get('def') or ''):
-                    vi = vi_of_discr(facts, adt, val)
-                    if vi is not None:
-                        out[variant_names(facts, adt)[vi]] = tt[5] if len(tt) > 5 else 0
-                break
-    return out
+        kinds = set()
+        for o in outs:
+            t = tag_of(o.ret) or ''
+            m = re.match(r'^call:([A-Za-z_0-9]+)@', t)
+            if m and m.group(1) in hshort:
+                kinds.add('handler')
+            else:
+                kinds.add('const:' + show(o.ret)[:60])
+        per[v] = kinds
+    decided = [k for k in per.values() if k is not None]
+    common = set.intersection(*decided) if decided else set()
+    common.discard('handler')
+    return {v: 1 for v, k in per.items() if k is not None and 'handler' in k and (k - common) == {'handler'}}, [v for v, k in per.items() if k is None]
 
 
 def strict_null_agreement(ctx, facts, adt=EXPR, nullable=NULLABLE, pb_prefix=PB, rule='strict-null-agreement'):
@@ -119,9 +131,11 @@ def strict_null_agreement(ctx, facts, adt=EXPR, nullable=NULLABLE, pb_prefix=PB,
     deciders = [d for d in facts.fn_index if d.startswith(pb_prefix) and '{closure' not in d and d not in handlers and any(h in facts.callees.get(d, ()) for h in handlers)]
     strict = {}
     for d in deciders:
-        rec = facts.fn(d)
         ctx.analysed_fns.add(d)
-        strict.update(strict_variants(facts, rec, lambda nm: nm in handlers, adt))
+        sv, und = strict_variants(facts, d, handlers, adt, pb_prefix)
+        strict.update(sv)
+        for v in und:
+            ctx.undecided(rule, '%s(%s)' % (d.rsplit('::', 1)[-1], v), 'exploration budget exceeded')
     nrec = facts.fn(nullable)
     if nrec is None:
         ctx.lost(rule, nullable)
